@@ -53,6 +53,36 @@ func genCase(maxOps int, crash bool) func(t *rapid.T) Case {
 	}
 }
 
+// genBigCase: histories with thousands of headers - batch appends of more
+// than a headers message (2 000) and rollbacks of more than that in one call,
+// as the header import does when it compensates a failed filter batch. Size
+// thresholds inside the stores (chunked transactions, buffer limits) only
+// show at this scale.
+func genBigCase(t *rapid.T) Case {
+	c := Case{Seed: rapid.Uint64Range(0, 1000).Draw(t, "seed")}
+	n1 := 2050 + kit.Uni(t, "n1", 1200)
+	c.Ops = append(c.Ops, Op{Kind: "appendB", N: n1})
+	if kit.Uni(t, "f", 2) == 0 {
+		// (few filter headers: the composite rollback removes them one
+		// call at a time, each call a primitive with its own crash
+		// images)
+		c.Ops = append(c.Ops, Op{Kind: "appendF", N: kit.Pick(t, "nf", []int{1, 2, 5})})
+	}
+	tail := rapid.SliceOfN(rapid.Custom(func(t *rapid.T) Op {
+		switch kit.Uni(t, "kind", 6) {
+		case 0, 1, 2:
+			return Op{Kind: "rollbackB", N: kit.Pick(t, "n", []int{1999, 2000, 2001, 2002, 2048, 2049 + kit.Uni(t, "nx", 900), n1, n1 + 1})}
+		case 3:
+			return Op{Kind: "appendB", N: kit.Pick(t, "n", []int{1, 1999, 2000, 2001, 2500})}
+		case 4:
+			return Op{Kind: "reappend", N: 3000}
+		}
+		return Op{Kind: "reopen"}
+	}), 1, 3).Draw(t, "tail")
+	c.Ops = append(c.Ops, tail...)
+	return c
+}
+
 // prim describes one primitive store call: how it changes the model if it
 // succeeds, and how to perform it.
 type prim struct {
@@ -422,6 +452,30 @@ func runC08(t *testing.T, c Case) (v kit.Verdict) {
 		}
 	}()
 	var points []crashPoint
+	inside, nImages := 0, 0
+	failed := false
+	flush := func() {
+		for _, cp := range points {
+			if failed {
+				break
+			}
+			nImages++
+			if cp.inside {
+				inside++
+			}
+			v.Class("crash:%s", cp.sig)
+			if d := checkImage(cp); d != "" {
+				sym := d
+				if i := indexByte(sym, ':'); i > 0 {
+					sym = sym[:i]
+				}
+				v.Fail("C08/"+cp.sig+"/"+sym, "crash at [%s]: %s", cp.im.Label, d)
+				v.Logf("VIOLATION at [%s]: %s", cp.im.Label, d)
+				failed = true
+			}
+		}
+		points = points[:0]
+	}
 	r.onPrim = func(p prim, before, after *Model, exec func() error) error {
 		b0, f0 := sizes(r.e)
 		var hookErr error
@@ -472,10 +526,20 @@ func runC08(t *testing.T, c Case) (v kit.Verdict) {
 		if hookErr != nil {
 			return fmt.Errorf("snapshot: %v", hookErr)
 		}
+		// The images of this primitive are restarted right away and
+		// dropped: with thousands of headers the database file alone
+		// weighs tens of megabytes per image.
+		flush()
 		return err
 	}
 	for i, op := range c.Ops {
+		if failed {
+			break
+		}
 		if !r.apply(op) {
+			if failed {
+				break
+			}
 			// C07's business; here it only ends the history
 			v.Violation, v.Sig = "", ""
 			v.Logf("op %d %s failed, history ends", i, op)
@@ -483,25 +547,9 @@ func runC08(t *testing.T, c Case) (v kit.Verdict) {
 		}
 		v.Logf("op %d %s -> block tip %d filter tip %d (crash points so far %d)", i, op, len(r.m.Blocks)-1, len(r.m.Filters)-1, len(points))
 	}
+	flush()
 	r.e.Close()
-	inside := 0
-	for _, cp := range points {
-		if cp.inside {
-			inside++
-		}
-		cls := cp.sig
-		v.Class("crash:%s", cls)
-		if d := checkImage(cp); d != "" {
-			sym := d
-			if i := indexByte(sym, ':'); i > 0 {
-				sym = sym[:i]
-			}
-			v.Fail("C08/"+cp.sig+"/"+sym, "crash at [%s]: %s", cp.im.Label, d)
-			v.Logf("VIOLATION at [%s]: %s", cp.im.Label, d)
-			break
-		}
-	}
-	v.Count("crash_images", len(points))
+	v.Count("crash_images", nImages)
 	v.Nontrivial = inside > 0
 	return
 }
@@ -572,6 +620,14 @@ func checkImage(cp crashPoint) string {
 
 func TestC08(t *testing.T) {
 	kit.RunProp(t, kit.Prop[Case]{ID: "C08", Name: "store", Gen: genCase(10, true), Run: runC08})
+}
+
+func TestC08Big(t *testing.T) {
+	kit.RunProp(t, kit.Prop[Case]{ID: "C08", Name: "store-big", Gen: genBigCase, Run: runC08})
+}
+
+func TestC07Big(t *testing.T) {
+	kit.RunProp(t, kit.Prop[Case]{ID: "C07", Name: "store-big", Gen: genBigCase, Run: runC07})
 }
 
 func TestMain(m *testing.M) {
